@@ -1,21 +1,1005 @@
-//! Monitor for property C03 (see /verif/DESIGN.md §6).
+//! Monitor for property C03 - lexing follows TeX's scanner; every token traces to its source
+//! position; lexing never panics or exhausts its trace keys (DESIGN.md §6 C03).
+//!
+//! Observed events: the sequence of `lexer::Result`s of the real `texlang::token::lexer::Lexer`
+//! under a harness `lexer::Config`, `Tracer::trace` of every token, and the tokens the real VM
+//! hands to a harness primitive when category codes / `\endlinechar` are changed mid-file by the
+//! real `\catcode` / `\endlinechar` primitives.
+//! Oracle: `vmodels::lexer` (transcription of TeX §31, §343-§356, §360-§362) + panic oracle.
+
+mod calib;
+mod gen;
+mod real;
+
+use gen::Table;
+use real::{RItem, RealRun};
 use vcore::*;
+use vmodels::lexer as model;
+use vmodels::lexer::{Item, Quirks, Tok};
 
 pub struct M;
 pub static MONITOR: M = M;
+
+pub const KNOWN_HEX: &str = "C03-caret-hex-notation-missing";
+pub const KNOWN_CARETS: &str = "C03-carets-before-non-ascii-dropped";
+
+// ------------------------------------------------------------------------------------------
+// expectation = model run
+// ------------------------------------------------------------------------------------------
+
+#[derive(Debug, Clone, PartialEq)]
+pub enum Expect {
+    Tok {
+        tok: Tok,
+        line: usize,
+        lo: usize,
+        hi: usize,
+        /// produced by the character appended as end-line character
+        content: String,
+    },
+    Invalid {
+        c: char,
+        line: usize,
+        lo: usize,
+        hi: usize,
+        content: String,
+    },
+    NewLine,
+}
+
+/// Run the model over a whole text under a fixed configuration.
+fn model_run(
+    src: &str,
+    table: &Table,
+    elc: Option<char>,
+    report_eol: bool,
+    quirks: Quirks,
+) -> (Vec<Expect>, model::Stats) {
+    let mut lx = model::Lexer::with_quirks(src, quirks);
+    let cat = |c: char| table.get(c);
+    let mut out = vec![];
+    loop {
+        match lx.next(&cat, elc) {
+            Item::End => break,
+            Item::NewLine => {
+                if report_eol {
+                    out.push(Expect::NewLine)
+                }
+            }
+            Item::Token(tok, p) => out.push(Expect::Tok {
+                tok,
+                line: p.line,
+                lo: p.col_lo,
+                hi: p.col_hi,
+                content: lx.line_text(p.line).to_string(),
+            }),
+            Item::Invalid(c, p) => out.push(Expect::Invalid {
+                c,
+                line: p.line,
+                lo: p.col_lo,
+                hi: p.col_hi,
+                content: lx.line_text(p.line).to_string(),
+            }),
+        }
+    }
+    (out, lx.stats)
+}
+
+/// What differs between the observation and an expectation: `None` if nothing.
+/// Returns (signature, position of the first difference).
+pub fn diff(real: &[RItem], want: &[Expect]) -> Option<(String, usize)> {
+    let n = real.len().min(want.len());
+    for i in 0..n {
+        match (&real[i], &want[i]) {
+            (RItem::NewLine, Expect::NewLine) => {}
+            (
+                RItem::Tok { tok, trace },
+                Expect::Tok {
+                    tok: wtok,
+                    line,
+                    lo,
+                    hi,
+                    content,
+                },
+            ) => {
+                if tok != wtok {
+                    return Some(("token-sequence-differs-from-TeX".into(), i));
+                }
+                if trace.origin != "c03.tex" {
+                    return Some(("trace-origin-wrong".into(), i));
+                }
+                if trace.line != *line {
+                    return Some(("trace-line-number-wrong".into(), i));
+                }
+                if trace.index < *lo || trace.index > *hi {
+                    return Some(("trace-column-wrong".into(), i));
+                }
+                if &trace.content != content {
+                    return Some(("trace-line-content-wrong".into(), i));
+                }
+                if trace.value != wtok.text() {
+                    return Some(("trace-value-wrong".into(), i));
+                }
+            }
+            (
+                RItem::Invalid { c, trace },
+                Expect::Invalid {
+                    c: wc,
+                    line,
+                    lo,
+                    hi,
+                    content,
+                },
+            ) => {
+                if c != wc {
+                    return Some(("invalid-character-differs-from-TeX".into(), i));
+                }
+                if trace.origin != "c03.tex" {
+                    return Some(("trace-origin-wrong".into(), i));
+                }
+                if trace.line != *line {
+                    return Some(("trace-line-number-wrong".into(), i));
+                }
+                if trace.index < *lo || trace.index > *hi {
+                    return Some(("trace-column-wrong".into(), i));
+                }
+                if &trace.content != content {
+                    return Some(("trace-line-content-wrong".into(), i));
+                }
+            }
+            _ => return Some(("token-sequence-differs-from-TeX".into(), i)),
+        }
+    }
+    if real.len() != want.len() {
+        return Some((
+            if real.len() < want.len() {
+                "tokens-missing-at-end".into()
+            } else {
+                "extra-tokens-at-end".into()
+            },
+            n,
+        ));
+    }
+    None
+}
+
+fn quirk_sets() -> [(Quirks, &'static [&'static str]); 3] {
+    [
+        (
+            Quirks {
+                no_hex: true,
+                drop_carets_before_non_ascii: false,
+            },
+            &[KNOWN_HEX],
+        ),
+        (
+            Quirks {
+                no_hex: false,
+                drop_carets_before_non_ascii: true,
+            },
+            &[KNOWN_CARETS],
+        ),
+        (
+            Quirks {
+                no_hex: true,
+                drop_carets_before_non_ascii: true,
+            },
+            &[KNOWN_HEX, KNOWN_CARETS],
+        ),
+    ]
+}
+
+/// Was every deviation rule that is switched on actually exercised in this model run?
+fn quirks_exercised(q: Quirks, s: &model::Stats) -> bool {
+    (!q.no_hex || s.hex_suppressed > 0) && (!q.drop_carets_before_non_ascii || s.carets_dropped > 0)
+}
+
+fn show_items(v: &[RItem]) -> Vec<String> {
+    v.iter().map(|x| x.show()).collect()
+}
+
+fn show_expect(v: &[Expect]) -> Vec<String> {
+    v.iter()
+        .map(|e| match e {
+            Expect::NewLine => "<newline>".to_string(),
+            Expect::Tok {
+                tok, line, lo, hi, ..
+            } => format!("{}@{}:{}-{}", gen::show_tok(tok), line, lo, hi),
+            Expect::Invalid { c, line, lo, hi, .. } => {
+                format!("invalid({:?})@{}:{}-{}", c, line, lo, hi)
+            }
+        })
+        .collect()
+}
+
+// ------------------------------------------------------------------------------------------
+// standalone driver
+// ------------------------------------------------------------------------------------------
+
+struct Case<'a> {
+    src: &'a str,
+    table: &'a Table,
+    elc: Option<char>,
+    report_eol: bool,
+    check_utf8: bool,
+}
+
+fn record_stats(obs: &mut Obs, prefix: &str, s: &model::Stats) {
+    let mut add = |name: &str, v: u32| {
+        if v > 0 {
+            obs.add(&format!("{prefix}{name}"), v as u64)
+        }
+    };
+    add("lines", s.lines);
+    add("trimmed_spaces", s.trimmed_spaces);
+    add("caret_reductions_main_loop", s.reductions_main);
+    add("caret_reductions_in_cs_name", s.reductions_in_name);
+    add("caret_hex_reductions", s.hex_reductions);
+    add("caret_recursive_reductions", s.recursive_reductions);
+    add("cs_names_with_2+_reductions", s.multi_reduction_names);
+    add("carets_before_non_ascii", s.carets_before_non_ascii);
+    add("carets_at_line_end_no_reduction", s.carets_at_line_end);
+    add("par_tokens", s.par_tokens);
+    add("eol_space_tokens", s.eol_spaces);
+    add("eol_skipped_in_state_S", s.eol_skipped);
+    add("spaces_skipped_state_N_or_S", s.spaces_skipped);
+    add("comments", s.comments);
+    add("ignored_chars", s.ignored);
+    add("invalid_chars", s.invalid);
+    add("null_cs", s.null_cs);
+    add("multi_letter_cs", s.multi_letter_cs);
+    add("single_char_cs", s.single_char_cs);
+}
+
+/// Counters about the trace oracle: how many traces were checked and of which class.
+fn record_trace_classes(obs: &mut Obs, prefix: &str, want: &[Expect]) {
+    let mut n = 0u64;
+    let mut reduced = 0u64;
+    let mut multibyte = 0u64;
+    let mut later_lines = 0u64;
+    let mut past_end = 0u64;
+    for e in want {
+        if let Expect::Tok {
+            line, lo, hi, content, ..
+        }
+        | Expect::Invalid {
+            line, lo, hi, content, ..
+        } = e
+        {
+            n += 1;
+            if hi > lo {
+                reduced += 1;
+            }
+            if *line > 1 {
+                later_lines += 1;
+            }
+            // column counted in characters differs from the byte offset
+            if content.chars().take(*lo).any(|c| c.len_utf8() > 1) {
+                multibyte += 1;
+            }
+            if *lo >= content.trim_end_matches(' ').chars().count() {
+                past_end += 1;
+            }
+        }
+    }
+    obs.add(&format!("{prefix}traces_checked"), n);
+    obs.add(&format!("{prefix}traces_of_caret_reduced_tokens"), reduced);
+    obs.add(&format!("{prefix}traces_after_multibyte_char"), multibyte);
+    obs.add(&format!("{prefix}traces_on_line_2+"), later_lines);
+    obs.add(&format!("{prefix}traces_of_endlinechar_tokens"), past_end);
+}
+
+/// Run one (text, table, end-line char) through the real standalone lexer and the model.
+/// Returns true if the case held (or was attributed to a known finding).
+fn check_standalone(obs: &mut Obs, prefix: &str, case: &Case) -> bool {
+    let (want, stats) = model_run(case.src, case.table, case.elc, case.report_eol, Quirks::default());
+    let run = real::run_standalone(case.src, case.table, case.elc, case.report_eol, case.check_utf8);
+    let detail = |extra: Value| {
+        json!({
+            "source": case.src,
+            "source_escaped": format!("{:?}", case.src),
+            "catcodes": case.table.describe(case.src, case.elc),
+            "end_line_char": case.elc.map(|c| format!("{:?}", c)),
+            "report_end_of_line": case.report_eol,
+            "driver": "standalone Lexer::next + Tracer::trace",
+            "extra": extra,
+        })
+    };
+    obs.count(&format!("{prefix}cases"));
+    let items = match run {
+        RealRun::Panicked(p) => {
+            obs.repo_panic(
+                &p,
+                detail(json!({"model_expected": show_expect(&want)})),
+            );
+            return false;
+        }
+        RealRun::Runaway(items) => {
+            obs.violation(
+                "lexer-does-not-reach-end-of-input",
+                detail(json!({"observed_prefix": show_items(&items[..items.len().min(40)])})),
+            );
+            return false;
+        }
+        RealRun::BadUtf8(at, bytes) => {
+            obs.violation(
+                "current-line-not-valid-utf8-after-caret-reduction",
+                detail(json!({"after_result_number": at, "lexer_state_bytes": bytes})),
+            );
+            return false;
+        }
+        RealRun::Done(items) => items,
+    };
+    record_stats(obs, prefix, &stats);
+    obs.add(&format!("{prefix}results_compared"), want.len() as u64);
+    match diff(&items, &want) {
+        None => {
+            record_trace_classes(obs, prefix, &want);
+            if stats.hex_reductions > 0 {
+                obs.count(&format!("{prefix}cases_with_hex_reduction_matching_TeX"));
+            }
+            if stats.carets_before_non_ascii > 0 {
+                obs.count(&format!("{prefix}cases_with_carets_before_non_ascii_matching_TeX"));
+            }
+            true
+        }
+        Some((sig, at)) => {
+            // known-finding attribution: trigger (the replaced rule was exercised) AND the
+            // observation equals the deviation model's prediction, exactly.
+            for (q, ids) in quirk_sets() {
+                let (w2, s2) = model_run(case.src, case.table, case.elc, case.report_eol, q);
+                if quirks_exercised(q, &s2) && diff(&items, &w2).is_none() {
+                    record_trace_classes(obs, prefix, &w2);
+                    for id in ids.iter() {
+                        obs.known(
+                            id,
+                            detail(json!({
+                                "observed": show_items(&items),
+                                "TeX": show_expect(&want),
+                                "first_difference_at": at,
+                                "difference": sig,
+                            })),
+                        );
+                    }
+                    return true;
+                }
+            }
+            obs.violation(
+                sig,
+                detail(json!({
+                    "observed": show_items(&items),
+                    "TeX": show_expect(&want),
+                    "first_difference_at": at,
+                })),
+            );
+            false
+        }
+    }
+}
+
+// ------------------------------------------------------------------------------------------
+// VM driver (just-in-time lexing)
+// ------------------------------------------------------------------------------------------
+
+/// Interpret the model's token stream the way the harness VM does: `\V` starts recording,
+/// `\Q<char>=<cat>\Y` / `\W=<n>\Y` change the lexing rules for what follows.
+struct VmExpect {
+    recorded: Vec<Expect>,
+    /// the run ends with an invalid-character error for this character
+    invalid: Option<Expect>,
+    stats: model::Stats,
+    catcode_changes: u32,
+    endlinechar_changes: u32,
+}
+
+enum VmModelErr {
+    /// the text itself produced one of the reserved control sequences (only possible through
+    /// `^^xy`), or a command could not be parsed for that reason
+    Reserved(String),
+}
+
+struct Interp {
+    lx: model::Lexer,
+    table: Table,
+    elc: Option<char>,
+    pending: Option<Item>,
+}
+
+impl Interp {
+    /// next model item, line starts skipped (the VM lexes with report_end_of_line = false)
+    fn next(&mut self) -> Item {
+        if let Some(i) = self.pending.take() {
+            return i;
+        }
+        loop {
+            let t = &self.table;
+            let it = self.lx.next(&|c| t.get(c), self.elc);
+            if it != Item::NewLine {
+                return it;
+            }
+        }
+    }
+    fn expect_of(&self, it: &Item) -> Expect {
+        match it {
+            Item::Token(tok, p) => Expect::Tok {
+                tok: tok.clone(),
+                line: p.line,
+                lo: p.col_lo,
+                hi: p.col_hi,
+                content: self.lx.line_text(p.line).to_string(),
+            },
+            Item::Invalid(c, p) => Expect::Invalid {
+                c: *c,
+                line: p.line,
+                lo: p.col_lo,
+                hi: p.col_hi,
+                content: self.lx.line_text(p.line).to_string(),
+            },
+            _ => Expect::NewLine,
+        }
+    }
+    /// `[-]digits`, the terminating item is put back
+    fn number(&mut self) -> Result<i64, VmModelErr> {
+        let mut neg = false;
+        let mut v: i64 = 0;
+        let mut any = false;
+        loop {
+            let it = self.next();
+            match &it {
+                Item::Token(Tok::Char('-', 12), _) if !any && !neg => neg = true,
+                Item::Token(Tok::Char(d, 12), _) if d.is_ascii_digit() && v < 10_000_000 => {
+                    any = true;
+                    v = v * 10 + (*d as i64 - '0' as i64);
+                }
+                _ => {
+                    self.pending = Some(it);
+                    break;
+                }
+            }
+        }
+        if !any {
+            return Err(VmModelErr::Reserved("number expected".into()));
+        }
+        Ok(if neg { -v } else { v })
+    }
+}
+
+fn vm_model(src: &str, initial: &Table, quirks: Quirks) -> Result<VmExpect, VmModelErr> {
+    let mut ip = Interp {
+        lx: model::Lexer::with_quirks(src, quirks),
+        table: initial.clone(),
+        elc: Some('\r'),
+        pending: None,
+    };
+    let mut out = VmExpect {
+        recorded: vec![],
+        invalid: None,
+        stats: model::Stats::default(),
+        catcode_changes: 0,
+        endlinechar_changes: 0,
+    };
+    let mut recording = false;
+    loop {
+        let it = ip.next();
+        match &it {
+            Item::End => break,
+            Item::Invalid(..) => {
+                out.invalid = Some(ip.expect_of(&it));
+                break;
+            }
+            Item::NewLine => unreachable!(),
+            Item::Token(Tok::Cs(name), _) if name == "Q" || name == "W" => {
+                // `\V` puts these back and the VM executes them
+                recording = false;
+                let target: Option<char> = if name == "Q" {
+                    let it = ip.next();
+                    match &it {
+                        Item::Token(Tok::Char('`', 12), _) => match ip.next() {
+                            Item::Token(Tok::Cs(n), _) if n.chars().count() == 1 => n.chars().next(),
+                            _ => return Err(VmModelErr::Reserved("`\\c expected".into())),
+                        },
+                        Item::Token(Tok::Char(d, 12), _) if d.is_ascii_digit() => {
+                            ip.pending = Some(it.clone());
+                            let v = ip.number()?;
+                            Some(
+                                char::from_u32(v as u32)
+                                    .ok_or_else(|| VmModelErr::Reserved("bad char code".into()))?,
+                            )
+                        }
+                        _ => return Err(VmModelErr::Reserved("char expected".into())),
+                    }
+                } else {
+                    None
+                };
+                match ip.next() {
+                    Item::Token(Tok::Char('=', 12), _) => {}
+                    _ => return Err(VmModelErr::Reserved("= expected".into())),
+                }
+                let v = ip.number()?;
+                match ip.next() {
+                    Item::Token(Tok::Cs(n), _) if n == "Y" => {}
+                    _ => return Err(VmModelErr::Reserved("\\Y expected".into())),
+                }
+                // the assignment takes effect now: after `\Y` was scanned, before anything else is
+                if let Some(c) = target {
+                    if !(0..=15).contains(&v) {
+                        return Err(VmModelErr::Reserved("catcode out of range".into()));
+                    }
+                    ip.table.set(c, v as u8);
+                    out.catcode_changes += 1;
+                } else {
+                    // texcraft's (and the property's) domain: none or an ASCII character
+                    ip.elc = if (0..128).contains(&v) {
+                        char::from_u32(v as u32)
+                    } else {
+                        None
+                    };
+                    out.endlinechar_changes += 1;
+                }
+            }
+            Item::Token(tok, _) => {
+                if recording {
+                    out.recorded.push(ip.expect_of(&it));
+                } else {
+                    match tok {
+                        Tok::Cs(n) if n == "V" => recording = true,
+                        Tok::Cs(n) if n == "Y" => {}
+                        _ => {
+                            return Err(VmModelErr::Reserved(format!(
+                                "token {} would be executed by the VM",
+                                gen::show_tok(tok)
+                            )))
+                        }
+                    }
+                }
+            }
+        }
+    }
+    out.stats = ip.lx.stats;
+    Ok(out)
+}
+
+fn check_vm(obs: &mut Obs, prefix: &str, src: &str) -> bool {
+    obs.count(&format!("{prefix}cases"));
+    let run = real::run_vm(src);
+    let initial = match &run {
+        Ok(r) => r.initial_table.clone(),
+        Err(_) => Table::plain(),
+    };
+    let want = match vm_model(src, &initial, Quirks::default()) {
+        Ok(w) => w,
+        Err(VmModelErr::Reserved(why)) => {
+            // outside what the generator means to produce; only reachable through ^^xy
+            // spelling one of the reserved names
+            let (_, st) = model::lex_all(src, &|c| initial.get(c), Some('\r'), Quirks::default());
+            if st.hex_reductions > 0 {
+                obs.skip("vm-text-spells-a-reserved-command-through-hex-notation");
+            } else {
+                obs.inconclusive(format!("vm program not interpretable by the harness: {why}"));
+            }
+            return true;
+        }
+    };
+    let detail = |extra: Value| {
+        json!({
+            "source": src,
+            "source_escaped": format!("{:?}", src),
+            "driver": "VM (vstate): \\Q=\\catcode \\W=\\endlinechar \\Y=\\relax \\V=record unexpanded tokens until \\Q/\\W/end",
+            "extra": extra,
+        })
+    };
+    let r = match run {
+        Err(p) => {
+            obs.repo_panic(&p, detail(json!({"model_expected": show_expect(&want.recorded)})));
+            return false;
+        }
+        Ok(r) => r,
+    };
+    record_stats(obs, prefix, &want.stats);
+    obs.add(&format!("{prefix}catcode_changes_mid_file"), want.catcode_changes as u64);
+    obs.add(&format!("{prefix}endlinechar_changes_mid_file"), want.endlinechar_changes as u64);
+    obs.add(&format!("{prefix}results_compared"), want.recorded.len() as u64);
+
+    let judge = |w: &VmExpect| -> Option<(String, usize)> {
+        if let Some(d) = diff(&r.recorded, &w.recorded) {
+            return Some(d);
+        }
+        match (&w.invalid, &r.error) {
+            (None, None) => None,
+            (Some(e), Some(err)) => {
+                let one = match &err.invalid {
+                    Some(i) => vec![i.clone()],
+                    None => return Some(("vm-error-is-not-the-invalid-character-error".into(), 0)),
+                };
+                diff(&one, std::slice::from_ref(e)).map(|(s, _)| (format!("vm-{s}"), w.recorded.len()))
+            }
+            (None, Some(_)) => Some(("vm-unexpected-error".into(), w.recorded.len())),
+            (Some(_), None) => Some(("vm-invalid-character-not-reported".into(), w.recorded.len())),
+        }
+    };
+    match judge(&want) {
+        None => {
+            record_trace_classes(obs, prefix, &want.recorded);
+            // did the mid-file changes matter? compare with lexing under the initial rules
+            if want.catcode_changes + want.endlinechar_changes > 0 {
+                let (stat, _) = model::lex_all(src, &|c| initial.get(c), Some('\r'), Quirks::default());
+                let n_static = stat.iter().filter(|i| matches!(i, Item::Token(..))).count();
+                let (dynamic, _) = (want.recorded.len(), 0);
+                if n_static != dynamic {
+                    obs.count(&format!("{prefix}cases_where_mid_file_change_altered_token_count"));
+                }
+            }
+            if want.invalid.is_some() {
+                obs.count(&format!("{prefix}invalid_character_errors_matched"));
+            }
+            true
+        }
+        Some((sig, at)) => {
+            for (q, ids) in quirk_sets() {
+                if let Ok(w2) = vm_model(src, &initial, q) {
+                    if quirks_exercised(q, &w2.stats) && judge(&w2).is_none() {
+                        for id in ids.iter() {
+                            obs.known(
+                                id,
+                                detail(json!({
+                                    "observed": show_items(&r.recorded),
+                                    "TeX": show_expect(&want.recorded),
+                                    "first_difference_at": at,
+                                    "difference": sig,
+                                })),
+                            );
+                        }
+                        return true;
+                    }
+                }
+            }
+            obs.violation(
+                format!("vm-{sig}"),
+                detail(json!({
+                    "observed": show_items(&r.recorded),
+                    "observed_error": r.error.as_ref().map(|e| e.title.clone()),
+                    "TeX": show_expect(&want.recorded),
+                    "TeX_invalid": want.invalid.as_ref().map(|e| show_expect(std::slice::from_ref(e))),
+                    "first_difference_at": at,
+                })),
+            );
+            false
+        }
+    }
+}
+
+// ------------------------------------------------------------------------------------------
+// the monitor
+// ------------------------------------------------------------------------------------------
+
+/// Fixed reproducers, one group per finding (phase "known"), plus neighbours that must hold.
+const KNOWN_CASES: &[(&str, &str)] = &[
+    ("hex", "^^5e"),
+    ("hex", "^^5e^5ea"),
+    ("hex", "\\^^5e^5ea b"),
+    ("hex", "\\a^^62c d"),
+    ("hex", "x^^7bq"),
+    ("carets", "^^é"),
+    ("carets", "\\^^é"),
+    ("carets", "\\a^^éb c"),
+    ("carets", "a^^😀"),
+    ("neighbour", "^^M b"),
+    ("neighbour", "^^5 x"),
+    ("neighbour", "^^5"),
+];
+
+fn exh_max_len(tier: Tier) -> u32 {
+    match tier {
+        Tier::Quick => 5,
+        Tier::Thorough => 7,
+    }
+}
+
+fn exh_count(max_len: u32) -> u64 {
+    (0..=max_len).map(|l| 7u64.pow(l)).sum()
+}
 
 impl Monitor for M {
     fn id(&self) -> &'static str {
         "C03"
     }
+
     fn rule(&self) -> String {
-        "not built yet".into()
+        "A case = (source text, category-code table, end-line character[, report_end_of_line]) for the standalone \
+         driver, or a whole file with embedded \\catcode/\\endlinechar changes for the VM driver. Phase exh: every \
+         string of length <= 5 (quick) / 7 (thorough) over {\\ ^ space newline 5 e é} x 6 fixed tables x 5 end-line \
+         characters, each a distinct case by construction. Phases random/vm: distinct by hash of the whole case; \
+         a case is non-trivial if the model lexes at least one token from it. \
+         Every case is lexed by the real code and by the model; token sequences, every token's trace \
+         (line, column, line text, value) and the absence of panics are compared."
+            .into()
     }
+
     fn assumptions(&self) -> Vec<String> {
-        vec![]
+        vec![
+            "The reference is a transcription of tex.web §31, §343-§356, §360-§362: only the space character (32) is trimmed from line ends (web2c also strips CR/tab: not modelled), a line ends at \\n only (\\r is an ordinary character).".into(),
+            "The empty source has no lines (tex.web would still process one empty first line; the repo's unit test `empty_1` pins 'no tokens').".into(),
+            "^^xy with value >= 0x80 denotes the Unicode scalar U+00xy (the only reading available to a Unicode engine).".into(),
+            "^^c with a non-ASCII c is not a reduction (tex.web: c<@'200); the two superscript characters stay tokens.".into(),
+            "Trace leniency (DESIGN G): the column of a token whose first character came out of a ^^ reduction may be any column of the ^^.. source span; a token produced by the appended end-line character sits at the first trimmed column.".into(),
+            "\\endlinechar is exercised in {-1} and 0..127 (the property's and texcraft's domain; tex.web allows up to 255).".into(),
+            "VM driver: the characters \\ Q W Y V ` = - 0-9 keep their plain category codes (the embedded commands are written with them); everything else may change.".into(),
+            "Default category-code tables (INITEX_DEFAULTS/PLAIN_TEX_DEFAULTS) are configuration, not part of the property: the VM driver reads the initial table from the VM's state.".into(),
+        ]
     }
-    fn phases(&self, _tier: Tier) -> Vec<Phase> {
-        vec![]
+
+    fn phases(&self, tier: Tier) -> Vec<Phase> {
+        vec![
+            Phase::new("known", KNOWN_CASES.len() as u64).batch(1).exhaustive("fixed reproducers of the known findings and their neighbours"),
+            Phase::new("exh", exh_count(exh_max_len(tier)))
+                .batch(tier.pick(128, 2048))
+                .exhaustive(match tier {
+                    Tier::Quick => "all strings of length <= 5 over {\\,^,space,newline,5,e,é} x 6 catcode tables x end-line char in {CR,none,e,^,space}",
+                    Tier::Thorough => "all strings of length <= 7 over {\\,^,space,newline,5,e,é} x 6 catcode tables x end-line char in {CR,none,e,^,space}",
+                }),
+            Phase::new("random", tier.pick(3_000_000, 50_000_000)).batch(tier.pick(1024, 8192)),
+            Phase::new("vm", tier.pick(120_000, 3_000_000)).batch(tier.pick(128, 1024)),
+        ]
     }
-    fn run_case(&self, _phase: &str, _idx: u64, _rng: &mut Rng, _obs: &mut Obs) {}
+
+    fn floors(&self, tier: Tier) -> Vec<(&'static str, u64)> {
+        // floors are roughly a third of what seed 0 observes
+        let r = |q: u64, t: u64| tier.pick(q, t);
+        vec![
+            ("known:cases", 24),
+            ("known-vm:cases", 12),
+            ("exh:cases", r(588_240, 28_824_000)),
+            ("exh:traces_checked", r(1_500_000, 70_000_000)),
+            ("exh:caret_reductions_main_loop", r(9_000, 400_000)),
+            ("exh:caret_reductions_in_cs_name", r(1_300, 60_000)),
+            ("exh:carets_at_line_end_no_reduction", r(6_000, 300_000)),
+            ("exh:par_tokens", r(15_000, 700_000)),
+            ("exh:null_cs", r(8_000, 400_000)),
+            ("exh:invalid_chars", r(16_000, 800_000)),
+            ("exh:ignored_chars", r(30_000, 1_500_000)),
+            ("exh:comments", r(23_000, 1_000_000)),
+            ("exh:trimmed_spaces", r(50_000, 2_000_000)),
+            ("exh:traces_of_endlinechar_tokens", r(150_000, 7_000_000)),
+            ("exh:traces_after_multibyte_char", r(150_000, 7_000_000)),
+            ("random:cases", r(3_000_000, 50_000_000)),
+            ("random:traces_checked", r(6_000_000, 100_000_000)),
+            ("random:traces_of_caret_reduced_tokens", r(800_000, 13_000_000)),
+            ("random:traces_after_multibyte_char", r(1_000_000, 17_000_000)),
+            ("random:traces_on_line_2+", r(2_000_000, 33_000_000)),
+            ("random:traces_of_endlinechar_tokens", r(1_000_000, 16_000_000)),
+            ("random:caret_reductions_main_loop", r(900_000, 15_000_000)),
+            ("random:caret_reductions_in_cs_name", r(250_000, 4_000_000)),
+            ("random:caret_recursive_reductions", r(80_000, 1_300_000)),
+            ("random:cs_names_with_2+_reductions", r(18_000, 300_000)),
+            ("random:carets_at_line_end_no_reduction", r(10_000, 160_000)),
+            ("random:trimmed_spaces", r(1_600_000, 27_000_000)),
+            ("random:par_tokens", r(130_000, 2_000_000)),
+            ("random:eol_space_tokens", r(280_000, 4_500_000)),
+            ("random:eol_skipped_in_state_S", r(55_000, 900_000)),
+            ("random:comments", r(120_000, 2_000_000)),
+            ("random:ignored_chars", r(140_000, 2_300_000)),
+            ("random:invalid_chars", r(100_000, 1_600_000)),
+            ("random:null_cs", r(26_000, 400_000)),
+            ("random:no_final_newline", r(450_000, 7_500_000)),
+            ("random:endlinechar=none", r(150_000, 2_500_000)),
+            ("random:endlinechar=superscript-char", r(140_000, 2_300_000)),
+            ("random:endlinechar=letter", r(160_000, 2_700_000)),
+            ("random:utf8_validity_checks", r(450_000, 7_500_000)),
+            ("vm:cases", r(120_000, 3_000_000)),
+            ("vm:catcode_changes_mid_file", r(120_000, 3_000_000)),
+            ("vm:endlinechar_changes_mid_file", r(24_000, 600_000)),
+            ("vm:cases_where_mid_file_change_altered_token_count", r(19_000, 470_000)),
+            ("vm:traces_checked", r(330_000, 8_000_000)),
+            ("vm:traces_of_caret_reduced_tokens", r(11_000, 280_000)),
+            ("vm:caret_reductions_in_cs_name", r(12_000, 300_000)),
+            ("vm:invalid_character_errors_matched", r(700, 18_000)),
+        ]
+    }
+
+    fn calibrate(&self, obs: &mut Obs) {
+        // (1) the model against the repository's own lexer test tables
+        let path = vcore::repo_dir().join("crates/texlang/src/token/lexer.rs");
+        let text = match std::fs::read_to_string(&path) {
+            Ok(t) => t,
+            Err(e) => {
+                obs.inconclusive(format!("cannot read {}: {e}", path.display()));
+                return;
+            }
+        };
+        let cases = match calib::parse(&text) {
+            Ok(c) => c,
+            Err(e) => {
+                obs.inconclusive(format!("cannot parse the lexer unit-test tables: {e}"));
+                return;
+            }
+        };
+        for case in &cases {
+            let mut table = Table::plain();
+            for (c, k) in &case.overrides {
+                table.set(*c, *k);
+            }
+            let (got, _) = model_run(&case.input, &table, case.end_line_char, true, Quirks::default());
+            // global character offset of the start of every line
+            let mut starts = vec![0usize];
+            for l in model::split_lines(&case.input) {
+                let last = *starts.last().unwrap();
+                starts.push(last + l.chars().count() + 1);
+            }
+            let mut ok = got.len() == case.want.len();
+            if ok {
+                for (g, w) in got.iter().zip(case.want.iter()) {
+                    ok &= match (g, w) {
+                        (Expect::NewLine, calib::Want::NewLine) => true,
+                        (
+                            Expect::Tok {
+                                tok: Tok::Cs(n), line, lo, hi, ..
+                            },
+                            calib::Want::Cs(wn, key),
+                        ) => {
+                            let k = *key as usize;
+                            n == wn && starts[line - 1] + lo <= k && k <= starts[line - 1] + hi
+                        }
+                        (
+                            Expect::Tok {
+                                tok: Tok::Char(c, cat),
+                                line,
+                                lo,
+                                hi,
+                                ..
+                            },
+                            calib::Want::Ch(wc, wcat, key),
+                        ) => {
+                            let k = *key as usize;
+                            c == wc && cat == wcat && starts[line - 1] + lo <= k && k <= starts[line - 1] + hi
+                        }
+                        _ => false,
+                    };
+                }
+            }
+            if ok {
+                obs.count("model_agrees_with_repo_lexer_test_case");
+            } else {
+                obs.violation(
+                    format!("model-disagrees-with-lexer-unit-test:{}", case.name),
+                    json!({"input": case.input, "model": show_expect(&got), "want": format!("{:?}", case.want)}),
+                );
+            }
+        }
+        if cases.len() < 70 {
+            obs.inconclusive(format!(
+                "only {} lexer unit-test cases found for calibration (expected >= 70; the file has 76)",
+                cases.len()
+            ));
+        }
+        // (2) model constants: TeXbook p. 343 table vs the model's plain table for the characters
+        // the unit tests rely on
+        for (c, k) in [
+            ('\\', 0u8),
+            ('{', 1),
+            ('}', 2),
+            ('$', 3),
+            ('&', 4),
+            ('\r', 5),
+            ('#', 6),
+            ('^', 7),
+            ('_', 8),
+            ('\0', 9),
+            (' ', 10),
+            ('a', 11),
+            ('Z', 11),
+            ('1', 12),
+            ('~', 13),
+            ('%', 14),
+            ('\u{7f}', 15),
+        ] {
+            if model::plain_cat(c) != k {
+                obs.inconclusive(format!("model plain table wrong for {:?}", c));
+            }
+        }
+    }
+
+    fn run_case(&self, phase: &str, idx: u64, rng: &mut Rng, obs: &mut Obs) {
+        match phase {
+            "known" => {
+                let (group, src) = KNOWN_CASES[idx as usize];
+                let table = Table::plain();
+                for elc in [Some('\r'), None] {
+                    check_standalone(
+                        obs,
+                        "known:",
+                        &Case {
+                            src,
+                            table: &table,
+                            elc,
+                            report_eol: true,
+                            check_utf8: true,
+                        },
+                    );
+                }
+                let vm_src = format!("\\V={src}\n\\Q`\\e=12\\Y\\V={src}\n");
+                check_vm(obs, "known-vm:", &vm_src);
+                obs.nontrivial(&("known", group, src));
+            }
+            "exh" => {
+                let s = gen::exh_string(idx, exh_max_len(obs.tier));
+                let mut n = 0;
+                for t in 0..gen::EXH_TABLES {
+                    let table = gen::exh_table(t);
+                    for elc in gen::EXH_ELC {
+                        check_standalone(
+                            obs,
+                            "exh:",
+                            &Case {
+                                src: &s,
+                                table: &table,
+                                elc: *elc,
+                                report_eol: true,
+                                check_utf8: false,
+                            },
+                        );
+                        n += 1;
+                    }
+                }
+                obs.nontrivial_by_construction(n);
+                if idx % 997 == 0 && obs.wants_sample() {
+                    let table = gen::exh_table(0);
+                    let (want, _) = model_run(&s, &table, Some('\r'), true, Quirks::default());
+                    obs.sample(json!({"source": s, "table": "plain", "end_line_char": "CR", "tokens": show_expect(&want)}));
+                }
+            }
+            "random" => {
+                let g = gen::random_case(rng);
+                let check_utf8 = g.src.contains(|c: char| !c.is_ascii()) || rng.chance(1, 8);
+                if check_utf8 {
+                    obs.count("random:utf8_validity_checks");
+                }
+                let ok = check_standalone(
+                    obs,
+                    "random:",
+                    &Case {
+                        src: &g.src,
+                        table: &g.table,
+                        elc: g.elc,
+                        report_eol: g.report_eol,
+                        check_utf8,
+                    },
+                );
+                let (want, _) = model_run(&g.src, &g.table, g.elc, g.report_eol, Quirks::default());
+                if want.iter().any(|e| !matches!(e, Expect::NewLine)) {
+                    obs.nontrivial(&(&g.src, g.table.signature(&g.src, g.elc), g.elc, g.report_eol));
+                }
+                match g.elc {
+                    None => obs.count("random:endlinechar=none"),
+                    Some('\r') => obs.count("random:endlinechar=CR"),
+                    Some(c) if g.table.get(c) == model::SUPERSCRIPT => obs.count("random:endlinechar=superscript-char"),
+                    Some(c) if g.table.get(c) == model::LETTER => obs.count("random:endlinechar=letter"),
+                    Some(' ') => obs.count("random:endlinechar=space"),
+                    Some(_) => obs.count("random:endlinechar=other-ascii"),
+                }
+                if !g.src.is_empty() && !g.src.ends_with('\n') {
+                    obs.count("random:no_final_newline");
+                }
+                if ok && obs.wants_sample() && want.len() > 3 {
+                    obs.sample(json!({
+                        "source": g.src, "catcodes": g.table.describe(&g.src, g.elc),
+                        "end_line_char": g.elc.map(|c| format!("{:?}", c)),
+                        "tokens_with_trace(line:col_lo-col_hi)": show_expect(&want),
+                    }));
+                }
+            }
+            "vm" => {
+                let src = gen::random_vm_program(rng);
+                let ok = check_vm(obs, "vm:", &src);
+                obs.nontrivial(&src);
+                if ok && obs.wants_sample() {
+                    obs.sample(json!({"source": src}));
+                }
+            }
+            other => obs.inconclusive(format!("unknown phase {other}")),
+        }
+    }
+
+    fn stack_bytes(&self) -> usize {
+        256 << 20
+    }
 }
